@@ -249,9 +249,18 @@ class World:
             out["sidx"][e] = sender.idx
             out["inflight"][e] = {i: [r.remaining, r.at < now - sender.resend_grace] for i, r in sender.inflight.items()}
             out["net"][e] = {f"{k[0]}:{k[1]}": n for k, n in sorted(self.bag(e).items())}
-            out["acked"][e] = sorted(s.idx for s in list(lst.acked))
+            out["acked"][e] = acked_view(lst)
             out["delivered"][e] = list(self.delivered[e])
         return out
+
+
+def acked_view(listener):
+    """The Syns a Listener remembers, as sorted idx values - or None when the library represents them in some other way than a
+    collection of Syn (the memory of seen Syns is internal; what it must achieve is judged on deliveries and acknowledgements)."""
+    try:
+        return sorted(s.idx for s in list(listener.acked))
+    except Exception:
+        return None
 
 
 def _fun(x) -> dict:
@@ -287,7 +296,7 @@ def replay(behaviour: list[tuple[str, dict]], R: int) -> dict:
             diffs = {}
             for f in exp:
                 for e in ("ctrl", "exec"):
-                    if exp[f][e] != got[f][e]:
+                    if exp[f][e] != got[f][e] and not (f == "acked" and got[f][e] is None):
                         if got["raised"][e] or got["raised"]["exec" if e == "ctrl" else "ctrl"]:
                             if f != "raised":
                                 continue
